@@ -157,8 +157,19 @@ class SocketError(OSError):
 
 
 class FakeSocketModule:
-    """`socket` as seen by treadmill.runtime: bind() fails with EADDRINUSE on
-    a (type, port) bound on the host."""
+    """`socket` as seen by treadmill.runtime, with the Linux bind semantics
+    the allocator relies on:
+
+    * bind() to a (type, port) held by another live socket fails with
+      EADDRINUSE, EXCEPT for udp when this socket and every socket already
+      bound there had SO_REUSEADDR set *before* their bind (then the kernel
+      lets them share the port);
+    * tcp keeps EADDRINUSE in that case too: the other container's socket is
+      listening;
+    * setsockopt(SOL_SOCKET, SO_REUSEADDR, 1) after bind has no effect on who
+      may bind.
+    Ports bound by somebody else on the host (pre-bound) never carry the
+    option."""
     AF_INET = 2
     SOCK_STREAM = 1
     SOCK_DGRAM = 2
@@ -175,17 +186,31 @@ class FakeSocketModule:
                 self.kind = kind
                 self.addr = None
                 self.closed = False
+                self.reuseaddr = False        # option value right now
+                self.reuse_at_bind = False    # ... at the moment of bind()
 
             def bind(self, addr):
+                host = mod.host
                 key = (self.kind, addr[1])
-                if key in mod.host.bound:
-                    raise SocketError(errno.EADDRINUSE, 'in use')
-                mod.host.bound.add(key)
-                mod.host.binds += 1
+                holders = host.holders.get(key, [])
+                if holders:
+                    share = (self.kind == mod.SOCK_DGRAM and self.reuseaddr
+                             and all(h is not None and h.reuse_at_bind
+                                     for h in holders))
+                    if not share:
+                        raise SocketError(errno.EADDRINUSE, 'in use')
+                    host.shared_binds += 1
+                host.holders.setdefault(key, []).append(self)
+                host.bound.add(key)
+                host.binds += 1
                 self.addr = addr
+                self.reuse_at_bind = self.reuseaddr
 
-            def setsockopt(self, *_a):
-                pass
+            def setsockopt(self, level, opt, value):
+                if level == mod.SOL_SOCKET and opt == mod.SO_REUSEADDR:
+                    self.reuseaddr = bool(value)
+                    if self.addr is None:
+                        mod.host.reuse_before_bind += 1
 
             def listen(self, _n):
                 pass
@@ -198,7 +223,13 @@ class FakeSocketModule:
 
             def close(self):
                 if self.addr is not None and not self.closed:
-                    mod.host.bound.discard((self.kind, self.addr[1]))
+                    key = (self.kind, self.addr[1])
+                    holders = mod.host.holders.get(key, [])
+                    if self in holders:
+                        holders.remove(self)
+                    if not holders:
+                        mod.host.holders.pop(key, None)
+                        mod.host.bound.discard(key)
                 self.closed = True
 
         self.socket = Sock
@@ -354,6 +385,11 @@ class Host:
                 self.bound.add((kind, runtime.PROD_PORT_HIGH))
                 self.bound.add((kind, runtime.NONPROD_PORT_HIGH))
         self.prebound = set(self.bound)
+        # who holds a (type, port): live fake sockets; None = a foreign
+        # process that bound the port without SO_REUSEADDR
+        self.holders = {key: [None] for key in self.bound}
+        self.shared_binds = 0
+        self.reuse_before_bind = 0
         if foreign:
             self._foreign()
         self.activate()
